@@ -10,9 +10,13 @@ from ..tree import LoD, Raised
 from .common import BV, T
 from .c15 import v_ident, py_eq, same_item, vE
 
-def mk_side(ctx, n, tag, idkey, keynames, payload):
+def mk_side(ctx, n, tag, idkey, keynames, payload, bare=False):
+    """bare: items may consist of their keys only (no id tag, no payload) - then they are identified by position"""
     items = []
     for i in range(n):
+        if bare and choice(f"{tag}{i}_bare", [False, True]):
+            items.append([(k, None if choice(f"{tag}{i}{k}_none", [False, True]) else SymPyInt(symx.sym_i64(f"{tag}{i}{k}"))) for k in keynames])
+            continue
         it = [(idkey, i)]
         for k in keynames:
             it.append((k, None if choice(f"{tag}{i}{k}_none", [False, True]) else SymPyInt(symx.sym_i64(f"{tag}{i}{k}"))))
@@ -35,7 +39,7 @@ class LodJoin(Harness):
         ka = ["k%d" % j for j in range(self.nkeys)]
         kb = ["r%d" % j for j in range(self.nkeys)] if self.renamed else ka
         A = mk_side(ctx, na, "a", "ida", ka, ["pa", "p"])
-        B = mk_side(ctx, nb, "b", "idb", kb, ["pb", "p"])
+        B = mk_side(ctx, nb, "b", "idb", kb, ["pb", "p"], bare=self.kind in ("left_join", "inner_join", "semi_join", "anti_join"))
         by = [[x, y] for x, y in zip(ka, kb)] if self.renamed else list(ka)
         return {"a": LoD(A), "b": LoD(B), "kind": self.kind, "by": by}
     def spec(self, inp, out):
